@@ -11,6 +11,7 @@ import (
 	"time"
 
 	"istio.io/istio/pkg/security"
+	nacache "istio.io/istio/security/pkg/nodeagent/cache"
 	"verifharness/internal/wire"
 )
 
@@ -26,6 +27,11 @@ func genConc(seed uint64, n int, path string) {
 	for i := 0; i < n; i++ {
 		r := root.Fork()
 		out.Line("case", strconv.Itoa(i), "conc")
+		if i < 2 {
+			// the central schedules of the quantifier: GenerateSecret || rotation tasks || bundle updates
+			out.Line("stress", []string{"16", "8"}[i], []string{"1000", "700"}[i], strconv.FormatUint(r.Next()>>40, 10))
+			continue
+		}
 		N := 2 + r.Intn(11)
 		if r.Chance(1, 8) {
 			N = 1
@@ -46,6 +52,8 @@ func genConc(seed uint64, n int, path string) {
 }
 
 type concResult struct {
+	q                    int    // tasks pushed to the delayed queue
+	ev, wl               string // callbacks (in order), cached certificate id
 	calls, errs, okCalls int
 	keys, certs          []int
 	mismatch             bool
@@ -101,6 +109,12 @@ func runConc(t []string) (concResult, bool) {
 	close(ready)
 	wg.Wait()
 	res.calls = s.ca.calls()
+	res.q = s.q.len()
+	res.ev = s.takeEvents()
+	res.wl = "-"
+	if w := nacache.VerifCachedWorkload(s.sc); w != nil {
+		res.wl = idTok(true, certID(w.CertificateChain))
+	}
 	for _, r := range s.ca.recs {
 		if r.out.kind == "ok" {
 			res.okCalls++
@@ -153,7 +167,9 @@ func execConc(t []string) string {
 	if !ok {
 		return "bad-op"
 	}
-	return fmt.Sprintf("calls=%d errs=%d keys=%s certs=%s", r.calls, r.errs, intsTok(r.keys), intsTok(r.certs))
+	// all of it is schedule independent (single_flight_*, one store and one task per successful response)
+	return fmt.Sprintf("calls=%d errs=%d keys=%s certs=%s q=%d ev=%s wl=%s", r.calls, r.errs, intsTok(r.keys), intsTok(r.certs),
+		r.q, r.ev, r.wl)
 }
 
 // oracleConc states single-flight on the real run: at most one successful signing request, every
@@ -170,6 +186,8 @@ func oracleConc(t []string) string {
 		return "single-flight-pairs keys=" + intsTok(r.keys) + ",certs=" + intsTok(r.certs)
 	case r.mismatch:
 		return "pair-mismatch"
+	case r.q != r.okCalls:
+		return fmt.Sprintf("renewal-count q=%d,ok-calls=%d", r.q, r.okCalls)
 	}
 	return ""
 }
